@@ -7,6 +7,14 @@ ROOT = os.path.dirname(os.path.dirname(os.path.abspath(__file__)))
 ALL = [f"C{i:02d}" for i in range(1, 21)]
 
 CLAIMED = {
+    "C09": dict(
+        text="Bounded symbolic execution (CrossHair/z3) of the real Client.upload / download / list(recursive) / remove and all the client methods below them on top of a model FTP peer replacing only "
+             "Client.command and Client.get_stream; tree shape, destination, write_into and working directory symbolic: remote/local tree afterwards equals the documented image exactly, recursive listing "
+             "returns each entry once with a usable path, remove deletes exactly the subtree.",
+        note="Trusted: CrossHair/z3, the model peer (reply codes as in C05's reference model), MemoryPathIO as local side. Outside: deeper / wider trees, real local filesystem semantics, symlinks, the wire level.",
+        technique="bounded symbolic execution of the real Python code (CrossHair 0.0.110 + z3) against a specification function for the documented destination",
+        design_ref="DESIGN.md section 3 C09",
+    ),
     "C19": dict(
         text="Bounded symbolic execution (CrossHair/z3) of every client parser on class-representative garbage and on every small mutation of valid lines (parse_list_line: only ValueError or a well-typed result; "
              "parse_mlsx_line total on symbolic Unicode; PASV/EPSV/257 parsers: ordinary exceptions only; parse_response terminates on every line sequence), of Client.list on hostile listings, and of the real "
